@@ -5,6 +5,8 @@ container / class attribute of kernpy, and of every option object handed to a ca
  (ii) all ordered pairs (op1, op2): op2 after op1 == op2 on a freshly imported copy;  (iii) two imports are indistinguishable;  (iv) op twice == op once.
 If every call is a self-loop the reachable state set is {s0} and the search is closed at depth 1 for histories of ANY length."""
 import contextlib
+import itertools
+import signal
 import io
 import os
 import re
@@ -19,6 +21,13 @@ from ..core import Acc, Viol, digest
 
 TC = kp.TokenCategory
 E = kp.Encoding
+
+
+class _OpTimeout(BaseException):
+    pass
+
+
+_HANGING = set()
 
 
 def toks(ts):
@@ -110,6 +119,9 @@ def make_ops(nspines, M):
     add('spine_types:empty', lambda d, a: kp.spine_types(d, **a), headers=[])
     add('is_monophonic', lambda d, a: kp.is_monophonic(d))
     add('iter', lambda d, a: list(d))
+    add('iter:first-only', lambda d, a: next(iter(d)))
+    add('iter:abandoned-after-two', lambda d, a: [x for _, x in zip(range(2), d)])
+    add('iter:nested', lambda d, a: list(itertools.islice(((x, y) for x in d for y in d), 5)))
     add('measures_count', lambda d, a: d.measures_count())
     add('first_measure', lambda d, a: d.get_first_measure())
     add('spine_ids', lambda d, a: d.get_spine_ids())
@@ -124,12 +136,25 @@ def make_ops(nspines, M):
 def call(op, doc):
     name, fn, args = op
     import copy
+    if name in _HANGING:
+        return ('exc', 'operation-does-not-return'), False     # it did not return once already in this process: do not wait for it again
     a = {k: (copy.copy(v) if isinstance(v, (list, set, dict)) else (copy.deepcopy(v) if v.__class__.__name__ == 'ExportOptions' else v)) for k, v in args.items()}
     before = SN.digest([a])
+
+    def _alarm(signum, frame):
+        raise _OpTimeout()          # a BaseException, raised again every second: code under test that swallows Exception cannot absorb it
+    old = signal.signal(signal.SIGALRM, _alarm)
+    signal.setitimer(signal.ITIMER_REAL, 5.0, 1.0)
     try:
         r = ('ok', repr(fn(doc, a)))
+    except _OpTimeout:
+        r = ('exc', 'operation-does-not-return')
+        _HANGING.add(name)
     except Exception as e:  # noqa
         r = ('exc', type(e).__name__)
+    finally:
+        signal.setitimer(signal.ITIMER_REAL, 0)
+        signal.signal(signal.SIGALRM, old)
     changed = SN.digest([a]) != before
     return r, changed
 
@@ -164,6 +189,7 @@ def doc_texts(tier, seed):
 def _doc_job(job):
     name, text, ns, tier = job
     acc = Acc()
+    _HANGING.clear()
     doc, errs = kp.loads(text)
     try:
         M = doc.measures_count()
